@@ -180,13 +180,14 @@ def run(ctx):
         for step in range(rng.randint(0, 4)):
             c = rng.random()
             if c < .3:
-                lit = E.EEnumLiteral(f'N{k}_{step}', value=rng.randint(0, 9))
+                # (names are free text: a literal may be called '50Hz' or '4K'; only the constructor's `literals=` prefixes those)
+                lit = E.EEnumLiteral(rng.choice([f'N{k}_{step}', f'{step}D{k}', f'{k}{step}']), value=rng.randint(0, 9))
                 (en.eLiterals.append if rng.random() < .5 else (lambda x: en.eLiterals.insert(0, x)))(lit)
                 hist.append(f'add {lit.name}')
             elif c < .55 and len(en.eLiterals):
                 lit = rng.choice(list(en.eLiterals))
                 old_ = lit.name
-                lit.name = f'R{k}_{step}'
+                lit.name = rng.choice([f'R{k}_{step}', f'{step}K{k}'])
                 hist.append(f'rename {old_} -> {lit.name}')
                 if rng.random() < .5:
                     # the name that became free is taken again: by another literal, or by a new one (appended / bulk-added)
